@@ -102,8 +102,8 @@ fn check_mig(prop: &str, tier: Tier, tier_s: &str) -> i32 {
             continue;
         }
         n += 1;
-        let file = format!("{}/replays/{prop}-{n}.json", run::VERIF);
-        let _ = std::fs::create_dir_all(format!("{}/replays", run::VERIF));
+        let file = format!("{}/replays/{prop}-{n}.json", run::out_root());
+        let _ = std::fs::create_dir_all(format!("{}/replays", run::out_root()));
         let mut d = doc.clone();
         if d.is_null() {
             d = json!({});
@@ -197,8 +197,8 @@ fn check_c13(tier: Tier, tier_s: &str) -> i32 {
             continue;
         }
         n += 1;
-        let file = format!("{}/replays/C13-{n}.json", run::VERIF);
-        let _ = std::fs::create_dir_all(format!("{}/replays", run::VERIF));
+        let file = format!("{}/replays/C13-{n}.json", run::out_root());
+        let _ = std::fs::create_dir_all(format!("{}/replays", run::out_root()));
         let doc = json!({"property": "C13", "kind": "instantiate", "signature": sig, "occurrences": count, "detail": detail, "shape": shape});
         if let Err(e) = std::fs::write(&file, serde_json::to_string_pretty(&doc).unwrap()) {
             eprintln!("MACHINERY ERROR: {e}");
